@@ -132,11 +132,21 @@ inductive Sel where
   | kinds (e v x : Bool) (m r : Nat)        -- every callback of these kinds whose node name has byte sum ≡ r (mod m); m = 0: all
 deriving Repr
 
+structure Script1 where
+  mode : String
+  structural : Bool
+  leaf : Bool        -- `L` prefix: the walk runs over a bare leaf root
+  sel : Sel
+  act : Act
+
+/-- a script, optionally followed by a second walk `>B` made with the SAME visitor object -/
 structure Script where
   text : String
   structural : Bool
   sel : Sel
   act : Act
+  leaf : Bool := false
+  next : Option Script1 := none
 
 def nameHash (s : String) : Nat := s.foldl (fun h c => h + c.toNat) 0
 
@@ -161,13 +171,29 @@ def parseSel (s : String) : Option Sel :=
     let ks ← (s.splitOn "+").mapM String.toNat?
     pure (.at ks)
 
-def parseScript (s : String) : Option Script :=
-  match s.splitOn ":" with
+def parseScript1 (s : String) : Option Script1 :=
+  let leaf := s.startsWith "L"
+  match ((if leaf then (s.drop 1).toString else s)).splitOn ":" with
   | [m, sel, a] => do
     let sel ← parseSel sel
     let a ← parseAct a
-    if m == "st" || m == "pg" then some ⟨s, true, sel, a⟩ else if m == "se" then some ⟨s, false, sel, a⟩ else none
+    if m == "st" || m == "pg" then some ⟨m, true, leaf, sel, a⟩ else if m == "se" then some ⟨m, false, leaf, sel, a⟩ else none
   | _ => none
+
+def parseScript (s : String) : Option Script :=
+  match s.splitOn ">" with
+  | [a] => do
+    let a ← parseScript1 a
+    pure { text := s, structural := a.structural, sel := a.sel, act := a.act, leaf := a.leaf }
+  | [a, b] => do
+    let a ← parseScript1 a
+    let b ← parseScript1 b
+    pure { text := s, structural := a.structural, sel := a.sel, act := a.act, leaf := a.leaf, next := some b }
+  | _ => none
+
+/-- the bare leaf root of an `L` walk, as the harness builds it -/
+def leafTree (mode : String) : Tree Lbl :=
+  .node ⟨[], if mode == "pg" then "pgsql.Identifier" else "*cypher.Variable"⟩ []
 
 /-- the scripted visitor as a function of the event history: the action is taken in the selected callbacks -/
 def schedVisitor {α : Type} (name : α → String) (sel : Sel) (act : Act) : Visitor α := fun hist =>
@@ -194,10 +220,18 @@ def resStr : Option Result → String
   | some .cursorError => "cerr"
   | none => "no-return"
 
+def logStr (l : List (Ev Lbl)) : String := if l.isEmpty then "-" else ",".intercalate (l.map evStr)
+
 def runScript (ts tse : Tree Lbl) (sc : Script) : String :=
-  let st := generic (schedVisitor (·.name) sc.sel sc.act) (if sc.structural then ts else tse)
-  let log := if st.log.isEmpty then "-" else ",".intercalate (st.log.map evStr)
-  s!"W {sc.text} {resStr st.ret} {log}"
+  let mode := (sc.text.splitOn ":").headD ""
+  let tA := if sc.leaf then leafTree ((mode.drop 1).toString) else (if sc.structural then ts else tse)
+  let st := generic (schedVisitor (·.name) sc.sel sc.act) tA
+  match sc.next with
+  | none => s!"W {sc.text} {resStr st.ret} {logStr st.log}"
+  | some b =>
+    -- the second walk starts with the handler the first one left behind
+    let sb := genericFrom st.h (schedVisitor (·.name) b.sel b.act) (if b.structural then ts else tse)
+    s!"W {sc.text} {resStr st.ret}>{resStr sb.ret} {logStr st.log}>{logStr sb.log}"
 
 /-- a branch tree given explicitly (suite c11pg): `(N "<type>" child…)` -/
 partial def toTree : Sexp → Option (Tree Lbl)
